@@ -174,8 +174,15 @@ class Live(object):
         return L
 
     # ---- running one tree ----
-    def run(self, tokens, private=False, ignored0=False):
+    def run(self, tokens, private=False, ignored0=False, unthreaded=False):
+        """unthreaded: VtOrderC runs its commands on the caller's thread.  Used for trees with bodies that use irc
+        several times: next to a thread hand-off two real threads evaluate the same enclosing proxies at once, each
+        holding the per-plugin locks (Commands.__synchronized__) of the bodies it is inside while asking for the next
+        one - seen to deadlock the bot (main thread included) for good; the machine model covers these schedules."""
         b = self.b
+        cbc = b.irc.getCallback('VtOrderC')
+        if unthreaded and cbc is not None:
+            cbc.threaded = False
         b.world.vt_c14_calls = calls = []
         b.world.vt_c14_log = []
         msg = b.ircmsgs.privmsg('test' if private else '#vt', 'x', prefix='al!u@h')
@@ -186,6 +193,9 @@ class Live(object):
             self.cb.NestedCommandsIrcProxy(b.irc, msg, tokens)
         except Exception as e:
             crash = type(e).__name__
+        finally:
+            if unthreaded and cbc is not None:
+                del cbc.threaded
         deadline = time.time() + 20
         while True:
             ts = [t for t in threading.enumerate() if isinstance(t, self.cb.CommandThread) and t.is_alive()]
@@ -722,7 +732,7 @@ def explore(live, r, n_worlds, per_world, corpus=()):
             lines.append(l); pend.append((None, None))
         winfo = dict(w)
         def add_eval(tokens, kind, check_full=False, ignored0=False, machine_only=False):
-            res = live.run(tokens, private=False, ignored0=ignored0)
+            res = live.run(tokens, private=False, ignored0=ignored0, unthreaded=machine_only)
             if ignored0:
                 lines.append(live.cfg_line(w, True)); pend.append((None, None))
             ok, msg = oracle_order(tokens, res, w)
@@ -763,6 +773,7 @@ def explore(live, r, n_worlds, per_world, corpus=()):
             if machine_only and any(c_[0] == 'VtOrderC' for c_ in res['calls']):
                 # a body that uses irc several times next to a threaded sub-command: the two threads race for the
                 # enclosing proxy; which interleaving the real threads take is not the harness's to fix — not compared
+                # (and run with the hand-off switched off, see Live.run: the real race can deadlock the process)
                 mc.impl = None; mc.tags = mc.tags + ('racy-not-compared',)
             add(mc, 'meval\t' + enc_tree(tokens), mpost)
             if ignored0:
@@ -1085,6 +1096,7 @@ def run(ctx):
                             assumptions=['command bodies use their irc object at most once (reply / noReply / error / nothing / raise)',
                                          'command and plugin names are ASCII (canonicalName case folding)',
                                          'threaded commands are joined before the log is read (scheduling against other traffic is not modelled)',
+                                         'trees with bodies that use irc several times run on the live bot with the thread hand-off switched off (two real threads in one evaluation can deadlock on the per-plugin locks, see the recorded finding); their schedules are covered by the machine theorems only',
                                          'invalidCommand handlers other than Misc\'s are abstract (the synthetic ones of VtOrderA/B answer by a behaviour letter)'],
                             t0=ctx.t0)
 
